@@ -106,6 +106,7 @@ func newGRig(c *core.Ctx, t *tape.Tape, cfg gCfg, extra ...ice.AgentOption) (*gR
 	g.turn = &rig.TurnStub{W: g.W, RelayHost: relayHost, RelayIP: "203.0.113.9", ParkAllocate: cfg.parkAllocate}
 	if cfg.relayCloseErr {
 		g.turn.RelayCloseErr = errInjected
+		c.Fault("relay-conn-close-error")
 	}
 
 	var types []ice.CandidateType
